@@ -61,7 +61,7 @@ class P(Prop):
             "influence and avg_sensitivity compared with brute-force definitions over all valuations; non-trivial = n has >=2 "
             "startpoints")
     assumptions = ["pysat absent: shim DPLL", "set-iteration order inside the patched run is the model's ordBy(seed) family"]
-    budget = {"quick": (60, 40), "thorough": (1000, 600)}
+    budget = {"quick": (120, 80), "thorough": (1000, 600)}
 
     def gen_case(self):
         rng = self.rng
